@@ -203,3 +203,36 @@ def dead_parameters(ctx, rule="RP"):
                             read = True
             ctx.check(rule, "%s|constructor-attribute-consumed|%s" % (cq, a), True if read else False, "constructor parameter '%s' is read by a method of the class" % a,
                       bad="constructor parameter '%s' of %s is stored but never read by any method: it has no effect" % (a, cq.rsplit(".", 1)[1]), nontrivial=False)
+
+
+def point_order_contract(ctx, rule):
+    """The callee-side half of every "index i of the tree / of the raveled arrays is point i of the input" argument
+    (assume/guarantee, DESIGN 8.2): n_1d_arrays flattens in C order, and verde.utils.kdtree indexes the points in that order.
+    Every property whose rule relies on per-point alignment through these helpers re-checks them under its own rule id."""
+    from ..terms import kw
+    qn = "verde.base.utils.n_1d_arrays"
+    for p in ctx.paths(qn):
+        if p.exit != "return":
+            continue
+        calls = [x for x in walk(p.value) if isinstance(x, tuple) and x and x[0] == "call"]
+        bad = [x for x in calls if callee(x) in ("numpy.ravel", ".ravel", ".flatten", "numpy.reshape", ".reshape") and kw(x, "order") not in (None, const("C"))]
+        bad += [x for x in calls if callee(x) in (".ravel", ".flatten") and x[2] and x[2][0] != const("C")]
+        bad += [x for x in calls if callee(x) == "numpy.ravel" and len(x[2]) > 1 and x[2][1] != const("C")]
+        flat = any(Q.ravel_of(x) is not None for x in calls)
+        ctx.check(rule, qn + "|C-order", False if bad else (True if flat else None), "n_1d_arrays ravels each array in C order (the order in which data, weights and index results are flattened)",
+                  bad="n_1d_arrays flattens with %s: for arrays that are not C-contiguous the points are numbered in another order than the data / the unravelled indices" % (show(bad[0])[:60] if bad else ""), fn=qn)
+    qn = "verde.utils.kdtree"
+    n1d = Q.call(ctx, "verde.base.utils.n_1d_arrays", ("param", "coordinates"), const(2))
+    for p in ctx.paths(qn):
+        if p.exit != "return":
+            continue
+        v = p.value
+        ok = None
+        if v[0] == "call" and v[2]:
+            pts = v[2][0]
+            if pts[0] == "call" and callee(pts) == "numpy.transpose" and pts[2] and canon(pts[2][0]) == canon(n1d):
+                ok = True
+            elif pts[0] == "call" and callee(pts) == "numpy.transpose" and pts[2] and pts[2][0][0] == "call" and callee(pts[2][0]) == "verde.base.utils.n_1d_arrays" and pts[2][0][2][:1] == (("param", "coordinates"),):
+                nn = Q.arg(ctx, pts[2][0], "n")
+                ok = True if nn in (const(2), ("call", ("glob", "builtins.len"), (("param", "coordinates"),), (), 0)) or (nn is not None and canon(nn) == canon(("call", ("glob", "builtins.len"), (("param", "coordinates"),), (), 0))) else None
+        ctx.check(rule, "%s|points-in-n_1d_arrays-order|%s" % (qn, Q.tags(p.conds)), ok, "the tree indexes the points as rows of transpose(n_1d_arrays(coordinates, 2))", fn=qn)
